@@ -68,6 +68,12 @@ def gen(rng, tier):
                         continue
                     t = c.split(" ", 3)          # D <S> <cache> <rest>
                     cases.append("S %s %s 0 0 %s" % (t[1], t[2], t[3]))
+    # an accepted upload held by a handler while ANOTHER server instance is started on the same cache directory (mode T)
+    for (S, L) in ((100, 5000), (4, 70000)):
+        for kind in ("g", "v"):
+            c = cell(S, L + 1000, L, True, False, "ok", kind, seed=rng.randint(1, 10**6))   # (a limit starting with 5 would be the /g5 path)
+            t = c.split(" ", 3)
+            cases.append("T %s %s 0 0 %s" % (t[1], t[2], t[3]))
     # "equals byte for byte what the client sent" under a disk write fault while the body is saved (mode X of the
     # shared harness, see props/c10.py): the handler must never be handed a shortened body
     import c10 as _c10
@@ -103,7 +109,7 @@ def classify(case, model):
 
 def nontrivial(case, model):
     t = case.split()
-    return t[0] == "X" or (t[0] in ("D", "S") and int(t[t.index("@c09") + 3]) > 0)
+    return t[0] == "X" or (t[0] in ("D", "S", "T") and int(t[t.index("@c09") + 3]) > 0)
 
 
 def pre_proof():
